@@ -356,6 +356,73 @@ def reused_argument_histories(rng, count, hist):
     return out
 
 
+# ------------------------------------------------------------------ a LARGE backlog of pending output (implementation only)
+
+def large_backlog_histories(rng, count, hist):
+    """Tens of KiB to a few MiB of output queued on one session before the transport takes any of it (a slow peer), then partial drains of
+    explicit amounts interleaved with further sends.  Expected: whatever the library does about large backlogs, the drained stream is the
+    concatenation of the harness's own encodings of the accepted sends, in call order."""
+    import p_c04
+
+    out = []
+    fr = p_c04.Freedom(rng, on=False)
+
+    def enc(m):
+        node, _ = p_c04.msg_tree(m, fr)
+        return ber.encode(node)
+
+    t = C.tx
+    for n in range(count):
+        role = rng.choice(["server", "server", "client"])
+        expected, drained, log = b"", b"", []
+        try:
+            if role == "server":
+                s = sansldap.LDAPServer()
+                s.receive(enc({"id": 1, "op": {"k": "searchReq", "base": t(""), "scope": 2, "deref": 0, "size": 0, "time": 0, "typesOnly": False,
+                                               "filter": {"k": "present", "a": t("cn")}, "attrs": []}, "controls": []}))
+            else:
+                s = sansldap.LDAPClient()
+            seq = 0
+
+            def send(size):
+                nonlocal expected, seq
+                seq += 1
+                val = bytes([seq % 251]) * size
+                if role == "server":
+                    s.search_result_entry(1, "cn=%d" % seq, [M.PartialAttribute("photo", [val])])
+                    m = {"id": 1, "op": {"k": "searchEntry", "name": t("cn=%d" % seq), "attrs": [{"name": t("photo"), "vals": [val.hex()]}]}, "controls": []}
+                else:
+                    i = s.extended_request("1.2.3", val)
+                    m = {"id": i, "op": {"k": "extReq", "name": t("1.2.3"), "value": val.hex()}, "controls": []}
+                expected += enc(m)
+
+            total = rng.choice([40_000, 66_000, 90_000, 140_000, 300_000, 1_100_000])
+            piece = rng.choice([1024, 1024, 4000, 20_000])
+            while len(expected) < total:
+                send(piece)
+            log.append(("queued", len(expected)))
+            for _ in range(rng.choice([2, 4, 8])):
+                amount = rng.choice([1, 100, 16384, 16384, 65535, 65536, 65537, len(expected) - len(drained) - 1, 30_000])
+                drained += s.data_to_send(amount)
+                log.append(("drain", amount))
+                for _k in range(rng.choice([0, 1, 2])):
+                    send(rng.choice([10, 1024, 70_000]))
+                    log.append(("send", seq))
+            drained += s.data_to_send()
+        except BaseException as e:  # noqa: BLE001
+            hist["large-backlog:" + type(e).__name__] += 1
+            continue
+        hist["large-backlog:sessions"] += 1
+        if drained != expected:
+            k = next((i for i in range(min(len(drained), len(expected))) if drained[i] != expected[i]), min(len(drained), len(expected)))
+            out.append({"key": None, "what": "with a large backlog of pending output and partial drains, the drained stream is not the concatenation of the "
+                        "encodings of the accepted sends in call order (lost, repeated or REORDERED)", "role": role, "log": log, "bytes_expected": len(expected),
+                        "bytes_drained": len(drained), "first_difference_at": k, "expected_there": expected[k: k + 24].hex(), "drained_there": drained[k: k + 24].hex()})
+            if len(out) >= 5:
+                break
+    return out
+
+
 # ------------------------------------------------------------------ sends whose PACKING fails (implementation only)
 
 UNENCODABLE = ["1.2.\ud800", "\udfff", "cn=\udc80x", "a\udcffb"]
